@@ -161,7 +161,7 @@ def reference(prs, dests, qw, status, force):
 # ---------------------------------------------------------------------------
 # per configuration
 # ---------------------------------------------------------------------------
-def build_world(root, layout, dsts):
+def build_world(root, layout, dsts, order=None):
     from ..sysmc.world import World, Config
     from ..sysmc import events as E
     from ..sysmc.drivers import BYPASS_REVIEW
@@ -175,7 +175,7 @@ def build_world(root, layout, dsts):
     for i, dst in enumerate(dsts):
         E.apply(w, ['open', 'bugfix/TEST-%d' % (i + 1), dst])
     sts = []
-    for i in range(len(dsts)):
+    for i in (order or range(len(dsts))):
         o = E.apply(w, ['eval_pr', i + 1])
         sts.append(o.get('status'))
     return w, sts
@@ -214,14 +214,14 @@ def run_real_class(graph, table, force):
 
 
 def config_task(args):
-    root, layout, dsts, tier, seed = args
-    res = {'layout': layout, 'dsts': dsts, 'evaluations': 0,
+    root, layout, dsts, order, tier, seed = args
+    res = {'layout': layout, 'dsts': dsts, 'order': order, 'evaluations': 0,
            'nontrivial': 0, 'mismatches': [], 'replays': 0,
            'replay_mismatches': [], 'error': None, 'commits': 0}
     try:
         core.import_berte()
         from ..sysmc import events as E
-        w, sts = build_world(root, layout, dsts)
+        w, sts = build_world(root, layout, dsts, order)
         if any(s != 'Queued' for s in sts):
             res['error'] = 'could not queue %s on %s: %s' % (dsts, layout,
                                                               sts)
@@ -231,7 +231,9 @@ def config_task(args):
         w.snapshot(snap)
         graph = extract_graph(w)
         dests = LAYOUT_DESTS[layout]
-        prs = [(i + 1, d) for i, d in enumerate(dsts)]
+        # pull requests in order of entry into the queue (ids are given
+        # at opening time and need not follow that order)
+        prs = [(i + 1, dsts[i]) for i in order]
         qw = {}
         for pid, dst in prs:
             for t in targets_of(dst, dests):
@@ -274,6 +276,7 @@ def config_task(args):
                     if len(res['mismatches']) < 20:
                         res['mismatches'].append({
                             'layout': layout, 'destinations': dsts,
+                            'entry_order': [i + 1 for i in order],
                             'statuses': {'%d@%s' % k: table[v]
                                          for k, v in qw.items()},
                             'force_merge': force,
@@ -310,6 +313,7 @@ def config_task(args):
             if not agree:
                 res['replay_mismatches'].append({
                     'layout': layout, 'destinations': dsts,
+                    'entry_order': [i + 1 for i in order],
                     'on_graph': [got[0], {k: v[:8] for k, v in
                                           got[1].items()}]
                     if got[0] != 'crash' else list(got),
@@ -325,23 +329,51 @@ def config_task(args):
 def configs(tier):
     out = []
     if tier == 'quick':
-        plan = [('D2', 3), ('D3', 2), ('S3', 3), ('SH3', 2)]
+        # (layout, max queue length, length up to which every entry order is
+        # tried)
+        plan = [('D2', 3, 3), ('D3', 2, 2), ('S3', 3, 2), ('SH3', 2, 0)]
     else:
-        plan = [('D2', 4), ('D3', 4), ('S3', 4), ('SH3', 3), ('SS3', 3)]
-    for layout, maxn in plan:
+        plan = [('D2', 4, 3), ('D3', 4, 3), ('S3', 4, 3), ('SH3', 3, 3),
+                ('SS3', 3, 3)]
+    for layout, maxn, permn in plan:
         dests = LAYOUT_DESTS[layout]
         for n in range(1, maxn + 1):
             for dsts in itertools.product(dests, repeat=n):
-                out.append((layout, list(dsts)))
+                perms = list(itertools.permutations(range(n)))
+                if n > permn:
+                    perms = perms[:1] if tier == 'quick' else [perms[0],
+                                                               perms[-1]]
+                for order in perms:
+                    out.append((layout, list(dsts), list(order)))
+    # two stabilization branches (three merge paths): every pair, and one
+    # representative triple per destination-kind pattern in the quick tier
+    S1, D1, S2 = ('stabilization/4.3.18', 'development/4.3',
+                  'stabilization/5.1.5')
+    if tier == 'quick':
+        for dsts in itertools.product(LAYOUT_DESTS['SS3'], repeat=2):
+            out.append(('SS3', list(dsts), [0, 1]))
+        for dsts in ([D1, D1, S2], [D1, S2, D1], [S1, S1, S2], [S1, D1, S2],
+                     [S1, S2, D1], [D1, S2, S2]):
+            out.append(('SS3', dsts, [0, 1, 2]))
     return out
 
 
 def classify(m):
     d = m['destinations']
+    stabs = {x for x in LAYOUT_DESTS[m['layout']]
+             if x.startswith('stabilization/')}
+    code_sel = m['code'][0] if m['code'][0] != 'crash' else None
+    if len(stabs) >= 2 and not m['force_merge'] and code_sel is not None \
+            and set(m['statement'][0]) < set(code_sel):
+        # several merge paths start from stabilization branches: the
+        # per-path verdicts are combined by taking the shortest list
+        return 'c05:selection-too-long:two-stabilization-merge-paths'
     kinds = ''.join('S' if x.startswith('stab') else (
         'H' if x.startswith('hotfix') else 'D') for x in d)
-    return 'c05:%s:%s:%s' % (m['layout'], kinds, 'force' if m[
-        'force_merge'] else 'normal')
+    inorder = m.get('entry_order') == sorted(m.get('entry_order', []))
+    return 'c05:%s:%s:%s:%s' % (m['layout'], kinds, 'force' if m[
+        'force_merge'] else 'normal', 'ids-in-entry-order' if inorder
+        else 'ids-not-in-entry-order')
 
 
 def run(tier, seed, workers=None):
@@ -350,8 +382,8 @@ def run(tier, seed, workers=None):
     root = explorer.master_root()
     os.makedirs(root, exist_ok=True)
     cr = CheckResult(PROP, 'model_checking')
-    tasks = [(root, layout, dsts, tier, seed)
-             for layout, dsts in configs(tier)]
+    tasks = [(root, layout, dsts, order, tier, seed)
+             for layout, dsts, order in configs(tier)]
     ctx = mp.get_context('fork')
     results = []
     try:
@@ -374,7 +406,7 @@ def run(tier, seed, workers=None):
             cr.add_violation(
                 'QueueCollection selects %s, the statement says %s: %s' % (
                     m['code'], m['statement'], {k: m[k] for k in (
-                        'layout', 'destinations', 'statuses',
+                        'layout', 'destinations', 'entry_order', 'statuses',
                         'force_merge')}),
                 classify(m), {'engine': 'enum', 'case': m})
     sample = [{'layout': r['layout'], 'destinations': r['dsts'],
@@ -388,7 +420,9 @@ def run(tier, seed, workers=None):
         'configurations': len(results),
         'rule': 'configuration = cascade x destination of each queued pull '
                 'request (every choice, in order of entry), queue built on a '
-                'real repository by real Bert-E and its commit graph '
+                'real repository by real Bert-E (pull requests entering the '
+                'queue in every order, i.e. ids need not follow the order of '
+                'entry) and its commit graph '
                 'extracted; then every assignment of {SUCCESSFUL, FAILED, '
                 'INPROGRESS, NOTSTARTED} (2-valued beyond 6/8 queue commits) '
                 'to every queue commit, force merge on a subset; '
@@ -409,10 +443,12 @@ def replay(data):
     from ..sysmc import explorer
     root = os.path.join(explorer.master_root(), 'replay')
     try:
-        w, sts = build_world(root, m['layout'], m['destinations'])
+        order = [i - 1 for i in m.get('entry_order') or range(
+            1, len(m['destinations']) + 1)]
+        w, sts = build_world(root, m['layout'], m['destinations'], order)
         graph = extract_graph(w)
         dests = LAYOUT_DESTS[m['layout']]
-        prs = [(i + 1, d) for i, d in enumerate(m['destinations'])]
+        prs = [(i + 1, m['destinations'][i]) for i in order]
         qw, table = {}, {}
         for key, st in m['statuses'].items():
             pid, t = key.split('@')
